@@ -329,6 +329,33 @@ func Slice(v ssa.Value, through func(c *ssa.Call) bool) map[ssa.Value]bool {
 			for _, b := range x.Bindings {
 				walk(b)
 			}
+		case *ssa.Alloc:
+			// values stored into the local object (directly or into its elements/fields)
+			for _, r := range *x.Referrers() {
+				switch y := r.(type) {
+				case *ssa.Store:
+					if y.Addr == x {
+						walk(y.Val)
+					}
+				case *ssa.IndexAddr:
+					if y.X == x {
+						walk(y.Index)
+						for _, rr := range *y.Referrers() {
+							if st, ok := rr.(*ssa.Store); ok && st.Addr == y {
+								walk(st.Val)
+							}
+						}
+					}
+				case *ssa.FieldAddr:
+					if y.X == x {
+						for _, rr := range *y.Referrers() {
+							if st, ok := rr.(*ssa.Store); ok && st.Addr == y {
+								walk(st.Val)
+							}
+						}
+					}
+				}
+			}
 		}
 	}
 	walk(v)
